@@ -202,6 +202,88 @@ Definition final_check (st : wst) : prog wres :=
       Ret (finish st r1 (w_stack st) (Ok (Complete (w_cur st))))
   end.
 
+(* one `Ok(next)`/`Err` round of the loop body for the component [part]
+   (imp.rs:262-449); [inner] continues the loop, [follow] restarts it after a
+   symlink body was spliced in. *)
+Definition walk_open (nosym nofollow : bool)
+           (follow : option (wst -> list bytes -> prog wres))
+           (inner : wst -> list bytes -> prog wres)
+           (remaining : bytes) (rest : list bytes) (st : wst) (part : bytes) : prog wres :=
+  if has_slash part then bail st None SafetyViolation else
+  r <- os (w_openat fz (w_cur st) part OPATH_WALK_FLAGS 0) ;;
+  match r with
+  | Err e => ret_partial st None remaining e
+  | Ok next =>
+      r <- (if is_dotdot part then check_current next (w_root st) (w_exp st) else Ret (Ok tt)) ;;
+      match r with
+      | Err e => bail st (Some next) e
+      | Ok _ =>
+          r <- os (w_fstatat fz next []) ;;
+          match r with
+          | Err e => bail st (Some next) e
+          | Ok meta =>
+              if negb (is_symlink_mode (st_mode meta)) then
+                r <- stack_pop_part st part ;;
+                match r with
+                | Err _ => bail st (Some next) InternalError
+                | Ok (stack', refs') =>
+                    st' <- set_cur {| w_root := w_root st; w_cur := w_cur st; w_exp := w_exp st;
+                                      w_refs := refs'; w_stack := stack' |}
+                                   next true (w_exp st) stack' ;;
+                    inner st' rest
+                end
+              else if is_nil rest && nofollow then
+                (* current = next.into(); break *)
+                st' <- set_cur st next true (w_exp st) (w_stack st) ;;
+                final_check st'
+              else if nosym then ret_partial st (Some next) remaining (OsError ELOOP)
+              else
+                r <- may_follow_link (w_cur st) next ;;
+                match r with
+                | Err e => bail st (Some next) e
+                | Ok _ =>
+                    match follow with
+                    | None => ret_partial st (Some next) remaining (OsError ELOOP)
+                    | Some go =>
+                        r <- os (w_readlinkat fz next []) ;;
+                        match r with
+                        | Err e => bail st (Some next) e
+                        | Ok target =>
+                            r <- (if is_abs target
+                                  then is_magiclink_filesystem fz next
+                                  else Ret (Ok false)) ;;
+                            match r with
+                            | Err e => bail st (Some next) e
+                            | Ok true => bail st (Some next) (OsError ELOOP)
+                            | Ok false =>
+                                (* stack.swap_link(&part, (&current, remaining), target) *)
+                                match (match w_stack st with
+                                       | None => Ok (None, w_refs st)
+                                       | Some ss =>
+                                           match ss_swap_link ss part (w_cur st) remaining target with
+                                           | Ok ss' => Ok (Some ss', rc_inc (w_cur st) (w_refs st))
+                                           | Err e => Err e
+                                           end
+                                       end) with
+                                | Err _ => bail st (Some next) InternalError
+                                | Ok (stack', refs') =>
+                                    let exp' := pop_exp (w_exp st) in
+                                    let st1 := {| w_root := w_root st; w_cur := w_cur st; w_exp := exp';
+                                                  w_refs := refs'; w_stack := stack' |} in
+                                    st2 <- (if is_abs target
+                                            then set_cur st1 (w_root st) false [] stack'
+                                            else Ret st1) ;;
+                                    close next ;;;
+                                    go st2 (raw_components target ++ rest)
+                                end
+                            end
+                        end
+                    end
+                end
+          end
+      end
+  end.
+
 (* the `while let Some(part) = remaining_components.pop_front()` loop of
    do_resolve (imp.rs:213-449) *)
 Definition walk_body (nosym nofollow : bool)
@@ -212,81 +294,7 @@ Definition walk_body (nosym nofollow : bool)
     | [] => final_check st
     | part0 :: rest =>
         let remaining := join_slash (part0 :: rest) in
-        let go_open (st : wst) (part : bytes) : prog wres :=
-          if has_slash part then bail st None SafetyViolation else
-          r <- os (w_openat fz (w_cur st) part OPATH_WALK_FLAGS 0) ;;
-          match r with
-          | Err e => ret_partial st None remaining e
-          | Ok next =>
-              r <- (if is_dotdot part then check_current next (w_root st) (w_exp st) else Ret (Ok tt)) ;;
-              match r with
-              | Err e => bail st (Some next) e
-              | Ok _ =>
-                  r <- os (w_fstatat fz next []) ;;
-                  match r with
-                  | Err e => bail st (Some next) e
-                  | Ok meta =>
-                      if negb (is_symlink_mode (st_mode meta)) then
-                        r <- stack_pop_part st part ;;
-                        match r with
-                        | Err _ => bail st (Some next) InternalError
-                        | Ok (stack', refs') =>
-                            st' <- set_cur {| w_root := w_root st; w_cur := w_cur st; w_exp := w_exp st;
-                                              w_refs := refs'; w_stack := stack' |}
-                                           next true (w_exp st) stack' ;;
-                            inner st' rest
-                        end
-                      else if is_nil rest && nofollow then
-                        (* current = next.into(); break *)
-                        st' <- set_cur st next true (w_exp st) (w_stack st) ;;
-                        final_check st'
-                      else if nosym then ret_partial st (Some next) remaining (OsError ELOOP)
-                      else
-                        r <- may_follow_link (w_cur st) next ;;
-                        match r with
-                        | Err e => bail st (Some next) e
-                        | Ok _ =>
-                            match follow with
-                            | None => ret_partial st (Some next) remaining (OsError ELOOP)
-                            | Some go =>
-                                r <- os (w_readlinkat fz next []) ;;
-                                match r with
-                                | Err e => bail st (Some next) e
-                                | Ok target =>
-                                    r <- (if is_abs target
-                                          then is_magiclink_filesystem fz next
-                                          else Ret (Ok false)) ;;
-                                    match r with
-                                    | Err e => bail st (Some next) e
-                                    | Ok true => bail st (Some next) (OsError ELOOP)
-                                    | Ok false =>
-                                        (* stack.swap_link(&part, (&current, remaining), target) *)
-                                        match (match w_stack st with
-                                               | None => Ok (None, w_refs st)
-                                               | Some ss =>
-                                                   match ss_swap_link ss part (w_cur st) remaining target with
-                                                   | Ok ss' => Ok (Some ss', rc_inc (w_cur st) (w_refs st))
-                                                   | Err e => Err e
-                                                   end
-                                               end) with
-                                        | Err _ => bail st (Some next) InternalError
-                                        | Ok (stack', refs') =>
-                                            let exp' := pop_exp (w_exp st) in
-                                            let st1 := {| w_root := w_root st; w_cur := w_cur st; w_exp := exp';
-                                                          w_refs := refs'; w_stack := stack' |} in
-                                            st2 <- (if is_abs target
-                                                    then set_cur st1 (w_root st) false [] stack'
-                                                    else Ret st1) ;;
-                                            close next ;;;
-                                            go st2 (raw_components target ++ rest)
-                                        end
-                                    end
-                                end
-                            end
-                        end
-                  end
-              end
-          end in
+        let go_open := walk_open nosym nofollow follow inner remaining rest in
         if is_nil part0 then go_open st [DOT]
         else if is_dot part0 then go_open st part0
         else if is_dotdot part0 then
